@@ -915,6 +915,10 @@ theorem stepCore_inv3 {s t : CS} {e : Ev} (h : stepCore s e = some t) (hi : Inv3
     obtain ⟨hg, rfl⟩ := guard_eq_some.1 h
     simp only [Bool.and_eq_true, decide_eq_true_eq] at hg
     exact ⟨hi.conn, hi.sends, hi.fault (hi.conn c hg.1.1.1.2), hi.okc⟩
+  | connGiveUp c =>
+    obtain ⟨hg, rfl⟩ := guard_eq_some.1 h
+    simp only [Bool.and_eq_true, decide_eq_true_eq] at hg
+    exact ⟨hi.conn, hi.sends, hi.fault (hi.conn c hg.2), hi.okc⟩
   | cfgFail c =>
     -- the failed attempt's link is recorded as faulted: it is the link that attempt opened
     obtain ⟨hg, rfl⟩ := guard_eq_some.1 h
